@@ -8,63 +8,63 @@ SSE = "small-scope exhaustive enumeration "
 CHECKS = {
  "C01": dict(cat=E, ref="§5 C01", tech=PBT + "over plaintexts/keys/randomness modes/4 I/O schedules + " + SSE + "of read partitions through the hooked chunk loops; oracle: round-trip identity, reported sender = S's public key",
    text="Generated-input search: round trip through the real key_encrypt/key_decrypt with scripted short reads and partial writes (lengths biased to 0 and k*65536±1), plus every composition of every length 0..=3cs+1 into reads for chunk sizes 1..4 (thorough 1..6) through the chunk loops. Finds counterexamples; does not prove absence. Cases may begin with 0..3 earlier encryptions on the same thread among {sender, recipient, third party} (state kept between calls is inside the case); only one half of an ephemeral pair may be supplied; one plaintext in 16 is itself kestrel output (magic / whole golden file).",
-   note="Readers are conforming; sizes up to 300 kB quick / 4 MiB thorough; kestrel's own randomness is not pinned; the chunk loop is parametric in the chunk size (layer A samples the real size); run against the library built with and without debug assertions."),
+   note="Readers are conforming; sizes up to 300 kB quick / 4 MiB thorough; kestrel's own randomness is not pinned; the chunk loop is parametric in the chunk size (layer A samples the real size); run against the library built with and without debug assertions. Also run against the library built with default-features = false (third build configuration)."),
  "C02": dict(cat=E, ref="§5 C02", tech=PBT + "over plaintexts, byte-string passwords, salts, I/O schedules; oracle: round trip + every generated non-equivalent wrong password rejected with zero bytes released",
-   text="Round trip through pass_encrypt/pass_decrypt for empty/ASCII/Unicode/raw/62..300-byte passwords, then decryption under constructed wrong passwords (1-bit flip, last byte, prefix, appended byte, case, empty, unrelated) which must fail before any write. Wrong passwords include w plus 256 / 65536 further bytes and w minus 256 (lengths that collide in 8 or 16 bits).",
+   text="Round trip through pass_encrypt/pass_decrypt for empty/ASCII/Unicode/raw/62..300-byte passwords, then decryption under constructed wrong passwords (1-bit flip, last byte, prefix, appended byte, case, empty, unrelated) which must fail before any write. Wrong passwords include w plus 256 / 65536 further bytes and w minus 256 (lengths that collide in 8 or 16 bits). The CLI layer gives the ciphertext as regular FILE, named pipe, /dev/stdin bound to a pipe, or stdin.",
    note="Passwords that are the same HMAC key (w vs w||00, long w vs SHA-256(w)) derive the same scrypt key by RFC 2104/7914 and are excluded from 'other password'; bounded by scrypt cost (hundreds of cases quick, thousands thorough)."),
  "C03": dict(cat=E, ref="§5 C03", tech=SSE + "(all bit flips, truncations, extensions, record sequences, header/chunk exchange) + " + PBT + "of multi-step mutation programs + libFuzzer targets (thorough); oracle: accepted => complete plaintext of the governing authentic file and file authentic outside counter fields",
    text="Authentic pools built with the implementation's own encryptor (key mode, password mode, hooked chunk loop with tiny chunks); every single-bit flip / proper prefix / 1-byte extension / record rearrangement / header-field or chunk-range splice of the enumerated files, and generated programs over larger pools incl. 64 KiB chunks. The CLI layer covers key and password mode, FILE argument or stdin, -o or stdout, and a dictionary of tails (line ends, NUL, ^Z, BOM ...).",
    note="AEAD forgery probability 2^-128 ignored; counter-field edits may be accepted or rejected; password-mode chunk areas mostly go through the hooked loop with the real derived key (4 % and all header edits through pass_decrypt)."),
  "C04": dict(cat=E, ref="§5 C04", tech=SSE + "and " + PBT + "of mutated/authentic files presented through a 1-byte-dribble reader to a recording sink, with injected I/O faults; libFuzzer target keyfile_mut (thorough); oracle: invariant over the interleaved read/write event log",
-   text="For every presented file the event log must show: sink content is a prefix of the authentic plaintext made of chunks authentic in the presented file; no byte of chunk j written before the reader delivered the end of record j; whole chunks only; Ok only for the authentic file, fully read to EOF; nothing written after a reported fault.",
+   text="For every presented file the event log must show: sink content is a prefix of the authentic plaintext made of chunks authentic in the presented file; no byte of chunk j written before the reader delivered the end of record j; whole chunks only; Ok only for the authentic file, fully read to EOF; nothing written after a reported fault. CLI: a decryption whose reader has gone (closed pipe, /dev/full) never reports success.",
    note="Authentic = produced by the implementation's encryptor; write-before-trailing-data-probe order is not asserted (the statement does not forbid it)."),
  "C05": dict(cat=E, ref="§5 C05", tech=PBT + "over constructed forgery classes (real encryptor with mismatched keys, specification-built handshakes, field splices, all 14 small-order encodings); oracle: outcome fixed by construction",
-   text="Every constructed non-honest file must be rejected with nothing written; encryption to a zero-forcing recipient key must fail before the sink is touched; honest controls must decrypt and name S. Includes the library's own encryptor run with an attacker's private key and S's public key right after S's own encryption to the same recipient.",
+   text="Every constructed non-honest file must be rejected with nothing written; encryption to a zero-forcing recipient key must fail before the sink is touched; honest controls must decrypt and name S. Includes the library's own encryptor run with an attacker's private key and S's public key right after S's own encryption to the same recipient. CLI: the sender line for 99-character names next to entries named like their beginning, password from the environment and typed at a pseudo-terminal.",
    note="Forged handshakes come from the independent specification (kspec); the evidence records that kspec-written honest files are accepted, so rejections are due to the construction."),
  "C06": dict(cat=E, ref="§5 C06", tech=PBT + "differential against an independent executable specification (kspec) in both directions + golden corpus + Noise nonce layout via hook",
    text="Byte equality of key_encrypt/pass_encrypt output with the specification for generated keys/ephemeral/payload/salt/plaintext/read schedules; specification-written files with arbitrary legal chunkings must decrypt; 25 golden files written by the pinned tree and the repository's 1.x test files must keep decrypting.",
-   note="kspec is the reference; validated against RFC vectors at every start and against OpenSSL by tools/oracle_audit.py."),
+   note="kspec is the reference; validated against RFC vectors at every start and against OpenSSL by tools/oracle_audit.py. Also run against the library built with default-features = false (third build configuration)."),
  "C07": dict(cat=E, ref="§5 C07", tech=PBT + "over operation histories (library and CLI) with repeated identical operations; oracle: pairwise-distinctness invariant over the history, per-file nonce i <-> record i, pooled monobit bound",
    text="Values the implementation draws itself (ephemeral keys, payload keys, file keys, generated private keys, salts) never repeat, never equal a supplied value, are not zero; each record opens under exactly its own position's nonce. `key change-pass` is also given several keys at once: every locked key it prints must carry its own salt.",
-   note="Shows absence of repetition and gross bias, not unpredictability of getrandom."),
+   note="Shows absence of repetition and gross bias, not unpredictability of getrandom. Also run against the library built with default-features = false (third build configuration)."),
  "C08": dict(cat=E, ref="§5 C08", tech=PBT + "metamorphic: identity-swap and password-swap pairs, layout parser, substring search; CLI runs with random names",
-   text="Length formula, documented layout with nothing else in the file, identical cleartext fields for any two identity pairs given the same ephemeral key, no key/name/password as substring in any encoding. With only one half of an ephemeral pair supplied the header field must still not be a party's key nor a function of the identities.",
+   text="Length formula, documented layout with nothing else in the file, identical cleartext fields for any two identity pairs given the same ephemeral key, no key/name/password as substring in any encoding. With only one half of an ephemeral pair supplied the header field must still not be a party's key nor a function of the identities. CLI: regular files of 8 MiB, 16 MiB and neighbours (exact multiples of the chunk size).",
    note="Needles >= 12 bytes (chance hit < 2^-64)."),
  "C09": dict(cat=E, ref="§5 C09", tech=SSE + "of input lengths per surface and of argument vectors (<= 3 tokens over 30) + " + PBT + "+ libFuzzer targets (thorough); oracle: every call returns / exit status in {0,1} with Error: line; counting-allocator resource relation for hostile headers",
-   text="All lengths 0..600 (files), 0..300 + 65535/65536/70000 (handshake), 0..200 (AEAD), 0..130 (key strings) over several fills; mutation programs; 55 862 argument vectors; hostile length fields must not raise heap, largest allocation, read-ahead or KDF count above the honest case. Path-like arguments: 41 hostile strings (~ forms, devices, /proc files, non-UTF-8, 5000 bytes) as -k / KESTREL_KEYRING / FILE / -o of complete command lines with HOME unset, valid, non-UTF-8, empty.",
+   text="All lengths 0..600 (files), 0..300 + 65535/65536/70000 (handshake), 0..200 (AEAD), 0..130 (key strings) over several fills; mutation programs; 55 862 argument vectors; hostile length fields must not raise heap, largest allocation, read-ahead or KDF count above the honest case. Path-like arguments: 41 hostile strings (~ forms, devices, /proc files, non-UTF-8, 5000 bytes) as -k / KESTREL_KEYRING / FILE / -o of complete command lines with HOME unset, valid, non-UTF-8, empty. Writers whose reader has gone: exit 1, never death by signal.",
    note="Caller preconditions (key/nonce sizes) respected; an abort kills kverif and is triaged from the per-worker crash trace (violation with a replay file); a case that does not return within the hang limit is a violation with a replay file."),
  "C10": dict(cat=F, ref="§5 C10", tech=SSE + "of every fault position (side x k-th call x 8 kinds) for small cases + " + PBT + "over schedules and faults; oracle: schedule independence, fired fault => error of the failing side, sink is prefix of fault-free sink",
    text="For 24 base cases every read/write/flush call index is failed with every kind (incl. Interrupted and zero-length write); generated cases cover 64 KiB chunks and password mode. Conversely, healthy sinks that are not regular files (-o /dev/stdout bound to a pipe, a named pipe with a reader, /dev/null) must receive the complete result.",
    note="Sources/sinks are conforming (failed call transfers nothing)."),
  "C11": dict(cat=E, ref="§5 C11", tech=PBT + "over sizes (to 64 MiB quick / 2 GiB + one 5 GiB thorough) with a counting global allocator and inline lag counters; oracle: peak heap independent of size, lag <= 2 chunks, byte-exact streaming round trip",
-   text="Encryption piped into decryption through a bounded ring on two threads; thread-local peak heap compared with the 256 KiB run of the same build; chunk j (= j-th read that returned data, incl. 512-byte pipe-like reads) must be written before more than two further chunks are consumed; data after the final chunk must not cost memory; process level: peak RSS of the real binary on sparse 64 MiB / 1 GiB files (also with aliased in/out paths) and its read-ahead on a regular file while stdout is blocked (procfs). The lag bound is also checked against sinks that buffer like BufWriter (bytes count once flushed or spilled).",
+   text="Encryption piped into decryption through a bounded ring on two threads; thread-local peak heap compared with the 256 KiB run of the same build; chunk j (= j-th read that returned data, incl. 512-byte pipe-like reads) must be written before more than two further chunks are consumed; data after the final chunk must not cost memory; process level: peak RSS of the real binary on sparse 64 MiB / 1 GiB files (also with aliased in/out paths) and its read-ahead on a regular file while stdout is blocked (procfs). The lag bound is also checked against sinks that buffer like BufWriter (bytes count once flushed or spilled). Plaintext typed at a pseudo-terminal with no FILE operand: refused, or streamed with peak RSS independent of the amount.",
    note="Bounds are relative to the same build (+128 KiB) with generous absolute caps, so a benign extra buffer is not an alarm."),
  "C12": dict(cat=E, ref="§5 C12", tech=PBT + "over logical requests x keyring compositions x wiring variants of the real binary + " + SSE + "of all 64 wirings; oracle: exit status = by-construction verdict, content, sender line, metamorphic agreement of wirings",
-   text="Runs the binary built from the working tree (CLI sources + working-tree library) in private directories with stdin/stdout/env/option-spelling/alias/order variants, damaged files, absent / look-alike senders, empty plaintexts, /dev/full and closed-pipe sinks, a longer file already at the -o path, and an unrelated KESTREL_KEYRING while -k is given. Wirings include -o targets that are not regular files (/dev/stdout as a pipe, FIFO, /dev/null).",
+   text="Runs the binary built from the working tree (CLI sources + working-tree library) in private directories with stdin/stdout/env/option-spelling/alias/order variants, damaged files, absent / look-alike senders, empty plaintexts, /dev/full and closed-pipe sinks, a longer file already at the -o path, and an unrelated KESTREL_KEYRING while -k is given. Wirings include -o targets that are not regular files (/dev/stdout as a pipe, FIFO, /dev/null). FILE operands that are named pipes, /dev/stdin, symbolic links, absolute paths; keyrings whose names are beginnings of each other.",
    note="Linux; passwords via --env-pass, and in one wiring typed at a pseudo-terminal (script(1)); each key operation costs one scrypt, so hundreds of invocations quick."),
  "C13": dict(cat=F, ref="§5 C13", tech=SSE + "of command x failure cause x prior state of the output path (generated instances) on the real binary; library companion by " + PBT + "; oracle: path unchanged (bytes, inode) / exactly the authenticated prefix",
-   text="5 commands x every applicable listed cause (~125) x {absent, present} x instances; later-chunk failures must leave exactly the first j chunks.",
+   text="5 commands x every applicable listed cause (~125) x {absent, present} x instances; later-chunk failures must leave exactly the first j chunks. The output path may be a symbolic link (dangling or to the existing file): the link and its target obey the same rule.",
    note="Linux; failure of the output device itself is not a listed cause; the typed-password causes need script(1) (skipped with a note otherwise)."),
  "C14": dict(cat=E, ref="§5 C14", tech=PBT + "over histories of `key generate -o F` on generated initial files; oracle: byte-prefix preservation, parse, presence, unlock, usability",
-   text="After every generation the old bytes are a prefix, the file parses, every name is present, the new key unlocks with its password and matches its PublicKey line; generated keys then encrypt/decrypt; initial files up to 4 MiB are verified through the tool itself; a generation that cannot append (file-size limit) must fail and lose nothing; a stale KESTREL_NEW_PASSWORD must not matter.",
+   text="After every generation the old bytes are a prefix, the file parses, every name is present, the new key unlocks with its password and matches its PublicKey line; generated keys then encrypt/decrypt; initial files up to 4 MiB are verified through the tool itself; a generation that cannot append (file-size limit) must fail and lose nothing; a stale KESTREL_NEW_PASSWORD must not matter. Later names may be the beginning of earlier ones.",
    note="Names/passwords via stdin/env; found and fixed F3."),
  "C15": dict(cat=E, ref="§5 C15", tech=PBT + "differential against the specification's lock + " + SSE + "of blob bit flips and malformed strings; oracle: string equality, unlock∘lock = id, every flip / other password rejected",
-   text="lock == documented format; all 32 version-bit flips and sampled (thorough: all 640) salt/ciphertext/tag flips rejected; strings of every length 0..130 over several alphabets never panic. The key commands of the binary (extract-pub, change-pass with new password different / equal / empty) on intact, bit-flipped and wrongly-passworded keys.",
+   text="lock == documented format; all 32 version-bit flips and sampled (thorough: all 640) salt/ciphertext/tag flips rejected; strings of every length 0..130 over several alphabets never panic. The key commands of the binary (extract-pub, change-pass with new password different / equal / empty) on intact, bit-flipped and wrongly-passworded keys. Passwords that look like file indirections (@file, file:...) naming files that exist where the tool runs.",
    note="HMAC-equivalent passwords excluded; flips outside the version cost one scrypt each."),
  "C16": dict(cat=E, ref="§5 C16", tech=PBT + "model-based over change-pass/extract-pub/use histories of the real binary; oracle: model (sk, current password, salts seen)",
    text="New string unlocks to the same key with the new password, salt is new, old passwords fail, extract-pub equals the keyring encoding of the key's public key, no output contains the private key in any encoding. Every key command also runs under an unrelated KESTREL_KEYRING (missing, garbage, unparsable, valid).",
    note="Linux; passwords via environment."),
  "C17": dict(cat=E, ref="§5 C17", tech=SSE + "of token sequences (<=5 over 14 tokens x 4 renderings) and section sequences + " + PBT + "of tool-written keyrings, texts, key strings + libFuzzer (thorough); oracle: accepted => by-construction structure valid and lookups return the sections; write->parse round trip; checksum model",
-   text="2.2 M token sequences, 87 k section sequences, every code point < U+3100 in names, tool-written keyrings with generated names, public-key strings vs strict base64 + SHA-256 checksum. Name length limit checked in bytes with 1-4-byte characters at the 128-byte boundary.",
+   text="2.2 M token sequences, 87 k section sequences, every code point < U+3100 in names, tool-written keyrings with generated names, public-key strings vs strict base64 + SHA-256 checksum. Name length limit checked in bytes with 1-4-byte characters at the 128-byte boundary. Keyrings may start with an entry whose key has a mistyped checksum; lookups of the first half of a name find nothing.",
    note="Leniency for hand-written files is not demanded; found and fixed F4."),
  "C18": dict(cat=E, ref="§5 C18", tech=PBT + "differential against independent RFC 7914 code, OpenSSL (hashlib.scrypt) and through the C ABI (extern fn with guard bytes; C driver with ASan)",
-   text="Parameters N=2^(1..15), r 1..16, p 1..8, dkLen 1..200 within the memory bound; exported C function writes exactly the requested bytes; header and implementation agree. Repeated with the allocator serving byte buffers at odd addresses and an odd output pointer.",
+   text="Parameters N=2^(1..15), r 1..16, p 1..8, dkLen 1..200 within the memory bound; exported C function writes exactly the requested bytes; header and implementation agree. Repeated with the allocator serving byte buffers at odd addresses and an odd output pointer. r up to 300 (fixed 129, 1024) and p up to 70 (fixed 300) with small N.",
    note="Caller preconditions respected; kspec != OpenSSL is reported as inconclusive (oracle fault), not as a violation."),
  "C19": dict(cat=E, ref="§5 C19", tech=SSE + "of (|m|,|aad|) grid, lengths, special points + " + PBT + "differential against independent RFC implementations; tamper sweeps; DH symmetry; nonce layout via hook",
-   text="AEAD on the full 131x41 grid with bit-flip sweeps, X25519 on all small-order/non-canonical encodings with clamp noise, HKDF/HMAC/SHA-256 over length ranges. Histories over PrivateKey objects (new, generate, to_public, clone, clone_from, zeroize, DH) against a model of each object's current scalar.",
+   text="AEAD on the full 131x41 grid with bit-flip sweeps, X25519 on all small-order/non-canonical encodings with clamp noise, HKDF/HMAC/SHA-256 over length ranges. Histories over PrivateKey objects (new, generate, to_public, clone, clone_from, zeroize, DH) against a model of each object's current scalar. One message of 2^31 - 16 bytes (skipped with a note when memory is short).",
    note="kspec is the RFC reference (self-tested, OpenSSL-audited)."),
  "C20": dict(cat=E, ref="§5 C20", tech=PBT + "over generated clone/drop/move programs with allocator-side inspection at dealloc and read-back of inline storage",
-   text="Every container value (from bytes, generated, cloned, clone_from target, boxed, boxed behind other bytes, inline at every address residue mod 8, dropped normally or while unwinding) must have zeroed key bytes in the storage it owns at the moment that storage is released. Every constructor and clone additionally journals the heap blocks released while it runs: none may hold the stored secret.",
+   text="Every container value (from bytes, generated, cloned, clone_from target, boxed, boxed behind other bytes, inline at every address residue mod 8, dropped normally or while unwinding) must have zeroed key bytes in the storage it owns at the moment that storage is released. Every constructor and clone additionally journals the heap blocks released while it runs: none may hold the stored secret. A whole key_encrypt + key_decrypt with every key supplied runs under the journal: no released block may hold one of the private keys.",
    note="Only storage owned at drop time; not copies left by moves; run against the library built with and without debug assertions."),
 }
 NA_REASON = {}
